@@ -329,9 +329,11 @@ def nontrivial(clauses, spec):
 
 
 def _work(chunk):
-    """chunk: list of (clauses, nvars, naming, [specs]) -> list of (clauses, nvars, naming, spec, kind, what)"""
+    """chunk: list of (clauses, nvars, naming, [specs] or (thorough, light)) -> list of (clauses, nvars, naming, spec, kind, what)"""
     out = []
     for clauses, nvars, naming, specs in chunk:
+        if isinstance(specs, tuple):
+            specs = transformation_specs(nvars, *specs)
         for spec in specs:
             for kind, what in eval_case(clauses, nvars, naming, spec):
                 out.append((clauses, nvars, naming, spec, kind, what))
@@ -368,13 +370,12 @@ def bounded_semantics(ctx, pool):
     tasks = []
     for clauses, nvars, naming in fs:
         big = len(clauses) >= 3 and not thorough
-        specs = transformation_specs(nvars, thorough, light=big)
-        tasks.append((clauses, nvars, naming, specs))
+        tasks.append((clauses, nvars, naming, (thorough, big)))
     res = pool.map_async(_work, list(_chunks(tasks, 8)))
-    for clauses, nvars, naming, specs in tasks:
+    for clauses, nvars, naming, (th, big) in tasks:
         nt = nontrivial(clauses, None)
         fk = repr((clauses, nvars, naming))
-        for spec in specs:
+        for spec in transformation_specs(nvars, th, big):
             ctx.case(fk + spec_key(spec), nontrivial=nt)
     for r in res.get():
         _report(ctx, r)
